@@ -47,9 +47,23 @@ fn bulk_doc(rng: &mut Rng) -> String {
     }
 }
 
+/// Windows line ends (and a lone CR) inside content that is copied as written - comments, CDATA, author
+/// styles, text - and between elements: the bytes belong to the input, no front-end may normalise them
+fn crlf_doc(rng: &mut Rng) -> String {
+    let base = match rng.below(3) {
+        0 => "<svg>\n  <!-- a comment\n       over two lines -->\n  <style><![CDATA[\n    .a { fill: red; }\n    .b { fill: blue; }\n  ]]></style>\n  <rect wh=\"4\" class=\"a\" text=\"t\"/>\n  <text xy=\"0 9\">one\ntwo</text>\n</svg>\n".to_string(),
+        1 => "<svg xmlns=\"http://www.w3.org/2000/svg\">\n<!-- real\n svg -->\n<desc>line 1\nline 2</desc>\n<rect width=\"1\"\n  height=\"2\"/>\n</svg>\n".to_string(),
+        _ => xmlgen::svgdx_doc(rng, true),
+    };
+    let mut s = base.replace("\n", "\r\n");
+    if rng.chance(1, 3) { s.push_str("<!-- trailing\rcr -->"); }
+    s
+}
+
 fn doc(rng: &mut Rng) -> String {
     if rng.chance(1, 4) { return styled_doc(rng); }
     if rng.chance(1, 6) { return bulk_doc(rng); }
+    if rng.chance(1, 8) { return crlf_doc(rng); }
     match rng.below(8) {
         // failures that are only found while the output is being WRITTEN (a character XML cannot contain,
         // held raw in an attribute or in text) and failures found by the reader - every front-end, in every
